@@ -8,6 +8,7 @@ coq_imports = ["Model.Base", "Model.Events", "Model.Attempt", "Model.AttemptSpec
 case_type = "acase"
 model_name = "Attempt.run_attempt (chained over retries)"
 monitor_name = "AttemptCheck (AttemptSpec recognisers)"
+also = ["C09b"]   # the World contract on whole concurrent runs (engine `sched`)
 sub_names = {1: "event stream and callback log of every attempt"}
 rule = attemptgen.RULE
 trusted_base = attemptgen.TRUSTED
